@@ -759,6 +759,11 @@ class Renderer:
                 if self.hazard == "const_map_semicolon_separator" and not self.hazard_used and not last:
                     self.hazard_used = True
                     self.tok(b";")
+                elif not last and not self.plain and rng.random() < 0.15:
+                    # no separator at all (Thrift's CommaOrSemicolonOptional; C10-F23, repaired)
+                    self.features.add("const_map_no_separator")
+                    if not self.out[-1:].isspace():
+                        self.tok(b" ")
                 elif not last or rng.random() < 0.5:
                     # ',' or ';' (C10-F18, repaired)
                     if rng.random() < 0.25:
